@@ -11,7 +11,8 @@ from vf import gen, harness, refdec, speclib, synth, treecheck
 
 ID = "C13"
 LEVEL = "exploration"
-RULE = ("seeded products: 1..8 images over polarisation subsets x scan suffix sets (none, F1..F7 / B1..B7 subsets), levels "
+RULE = ("(half of the products carry a random scene id incl. leap days; directory names with special characters) "
+        "seeded products: 1..8 images over polarisation subsets x scan suffix sets (none, F1..F7 / B1..B7 subsets), levels "
         "1.1/1.5/3.1, image files listed polarisation-major / scan-major / reversed / in random order (ordinals need not be alphabetical), map projection record present/absent, summary lines shuffled within and across sections for a third of "
         "the cases, LF/CRLF, workers run under different PYTHONHASHSEEDs; every third product is then replaced in place (same root and file names, "
         "new content everywhere, map projection toggled) and the second open is compared completely (root attributes, /metadata, line metadata, pixels). evaluations = products; non-trivial = product with "
